@@ -214,6 +214,18 @@ def _rest(col, crate, adt, gi, DIMS, DATA, sfx):
             # a constructor that builds the aggregate in a private helper
             via = [h for h in util.helper_callees(crate, b, y3_helpers) if _agg_sites(h)]
             if not via:
+                # a constructor that hands its arguments to another, judged, constructor and returns what that one returns
+                # (`from_slice(dims, data)` = `from_vec(dims, data.to_vec())`)
+                if b.vis == "pub" and not b.is_closure and str(b.locals[0]["ty"]).split("<")[0].endswith(("Tensor", "Self")):
+                    Id = util.analyse(b)
+                    judged = {x.key for x in crate.bodies if _agg_sites(x) and x.key not in y3_helper_keys}
+                    dl = []
+                    for st in Id.final_states:
+                        r_ = util.ret_term(st)
+                        cs = [e for e in st.event_list() if e.kind == "call" and e.res == r_ and (e.fn.get("resolved") or e.fn).get("def") in judged]
+                        dl.append(bool(cs))
+                    if dl and all(dl):
+                        col.ok("Y3" + sfx, b.loc(), "%s|construction" % fk(b), "returns what another (judged) constructor returns")
                 continue
             sites = [(0, None)]
         Ib = util.analyser(y3_helpers)(b)
@@ -246,7 +258,10 @@ def _rest(col, crate, adt, gi, DIMS, DATA, sfx):
                         cb = crate.by_key.get(clo[0][1][1])
                         if cb is not None:
                             Ic = util.analyse(cb)
-                            nz = bool(Ic.final_states) and all(util.ret_term(fs)[0] == "bin" and util.ret_term(fs)[1] == "Ne" and util.ret_term(fs)[3] == mk_int(0) for fs in Ic.final_states)
+                            def _nonzero_test(r_):
+                                # d != 0, d > 0, 0 < d, d >= 1 (extents are unsigned)
+                                return r_[0] == "bin" and ((r_[1] in ("Ne", "Gt") and r_[3] == mk_int(0)) or (r_[1] in ("Ne", "Lt") and r_[2] == mk_int(0)) or (r_[1] == "Ge" and r_[3] == mk_int(1)) or (r_[1] == "Le" and r_[2] == mk_int(1)))
+                            nz = bool(Ic.final_states) and all(_nonzero_test(util.ret_term(fs)) for fs in Ic.final_states)
                     if over_dims and nz:
                         zero_ok = True
                 if t[0] == "bin" and t[1] == "Eq" and f[0] == "eq" and f[2] == 1:
